@@ -1,59 +1,60 @@
 import SaModel.Lemmas.C04Cast
+import SaModel.Lemmas.C04CastEnum
 /-
-C04: `cast_lv` — the typed read specification `Read.cast`, at the target of a type, on the logical value of a value of
-that type, in a well-formed array of the traced field, demands exactly the normalised value (fragment `frag`).
+C04: `cast_lvE` — the typed read specification `Read.cast`, at the target of a type, on the logical value of a value of
+that type, in a well-formed array of the traced field, demands exactly the normalised value (fragment `fragE`).
 Mutual structural recursion over the value.
 -/
 namespace SaModel.Roundtrip
 open SaModel SaModel.Spec SaModel.Build
 
 mutual
-theorem cast_lv (o : TraceOpts) : ∀ (t : Ty) (v : Val) (a : Arr) (dt : DataType) (nb : Bool) (md : Metadata) (nl : Bool),
-    frag t = true → wt t v = true → mappingDT o t = (dt, nb, md) → Spec.wf dt nl a = true →
+theorem cast_lvE (o : TraceOpts) : ∀ (t : Ty) (v : Val) (a : Arr) (dt : DataType) (nb : Bool) (md : Metadata) (nl : Bool),
+    fragE t = true → wt t v = true → inScope o t v = true → mappingDT o t = (dt, nb, md) → Spec.wf dt nl a = true →
     Read.cast (toTarget t) a (lv t v) = Read.must (dvalOf t (norm t v))
-  | t, .bool b, a, dt, nb, md, nl, hf, hw, hm, hwf => by
+  | t, .bool b, a, dt, nb, md, nl, hf, hw, hs, hm, hwf => by
     cases t with
     | prim p =>
       simp only [mappingDT, Prod.mk.injEq] at hm; obtain ⟨rfl, rfl, rfl⟩ := hm
       rw [norm_prim]; exact cast_prim o p _ a nl (by simpa [wt] using hw) hwf
     | _ => simp [wt] at hw
-  | t, .int x, a, dt, nb, md, nl, hf, hw, hm, hwf => by
+  | t, .int x, a, dt, nb, md, nl, hf, hw, hs, hm, hwf => by
     cases t with
     | prim p =>
       simp only [mappingDT, Prod.mk.injEq] at hm; obtain ⟨rfl, rfl, rfl⟩ := hm
       rw [norm_prim]; exact cast_prim o p _ a nl (by simpa [wt] using hw) hwf
     | _ => simp [wt] at hw
-  | t, .f32 x, a, dt, nb, md, nl, hf, hw, hm, hwf => by
+  | t, .f32 x, a, dt, nb, md, nl, hf, hw, hs, hm, hwf => by
     cases t with
     | prim p =>
       simp only [mappingDT, Prod.mk.injEq] at hm; obtain ⟨rfl, rfl, rfl⟩ := hm
       rw [norm_prim]; exact cast_prim o p _ a nl (by simpa [wt] using hw) hwf
     | _ => simp [wt] at hw
-  | t, .f64 x, a, dt, nb, md, nl, hf, hw, hm, hwf => by
+  | t, .f64 x, a, dt, nb, md, nl, hf, hw, hs, hm, hwf => by
     cases t with
     | prim p =>
       simp only [mappingDT, Prod.mk.injEq] at hm; obtain ⟨rfl, rfl, rfl⟩ := hm
       rw [norm_prim]; exact cast_prim o p _ a nl (by simpa [wt] using hw) hwf
     | _ => simp [wt] at hw
-  | t, .char x, a, dt, nb, md, nl, hf, hw, hm, hwf => by
+  | t, .char x, a, dt, nb, md, nl, hf, hw, hs, hm, hwf => by
     cases t with
     | prim p =>
       simp only [mappingDT, Prod.mk.injEq] at hm; obtain ⟨rfl, rfl, rfl⟩ := hm
       rw [norm_prim]; exact cast_prim o p _ a nl (by simpa [wt] using hw) hwf
     | _ => simp [wt] at hw
-  | t, .str x, a, dt, nb, md, nl, hf, hw, hm, hwf => by
+  | t, .str x, a, dt, nb, md, nl, hf, hw, hs, hm, hwf => by
     cases t with
     | prim p =>
       simp only [mappingDT, Prod.mk.injEq] at hm; obtain ⟨rfl, rfl, rfl⟩ := hm
       rw [norm_prim]; exact cast_prim o p _ a nl (by simpa [wt] using hw) hwf
     | _ => simp [wt] at hw
-  | t, .bytes x, a, dt, nb, md, nl, hf, hw, hm, hwf => by
+  | t, .bytes x, a, dt, nb, md, nl, hf, hw, hs, hm, hwf => by
     cases t with
     | prim p =>
       simp only [mappingDT, Prod.mk.injEq] at hm; obtain ⟨rfl, rfl, rfl⟩ := hm
       rw [norm_prim]; exact cast_prim o p _ a nl (by simpa [wt] using hw) hwf
     | _ => simp [wt] at hw
-  | t, .unit, a, dt, nb, md, nl, hf, hw, hm, hwf => by
+  | t, .unit, a, dt, nb, md, nl, hf, hw, hs, hm, hwf => by
     cases t with
     | prim p => cases p <;> simp [wt, Prim.wt] at hw
     | unit =>
@@ -65,32 +66,32 @@ theorem cast_lv (o : TraceOpts) : ∀ (t : Ty) (v : Val) (a : Arr) (dt : DataTyp
       obtain ⟨len, rfl⟩ := wf_null hwf
       simp [toTarget, lv, norm, dvalOf, Read.cast, Read.castScalar, Read.isNullArr]
     | _ => simp [wt] at hw
-  | t, .none, a, dt, nb, md, nl, hf, hw, hm, hwf => by
+  | t, .none, a, dt, nb, md, nl, hf, hw, hs, hm, hwf => by
     cases t with
     | prim p => cases p <;> simp [wt, Prim.wt] at hw
     | option t' => simp [toTarget, lv, norm, dvalOf, Read.cast]
     | _ => simp [wt] at hw
-  | t, .some v, a, dt, nb, md, nl, hf, hw, hm, hwf => by
+  | t, .some v, a, dt, nb, md, nl, hf, hw, hs, hm, hwf => by
     cases t with
     | prim p => cases p <;> simp [wt, Prim.wt] at hw
     | option t' =>
       rcases hm' : mappingDT o t' with ⟨dt', nb', md'⟩
       simp only [mappingDT, hm', Prod.mk.injEq] at hm; obtain ⟨rfl, rfl, rfl⟩ := hm
-      have ih := cast_lv o t' v a _ _ _ nl (by simpa [frag] using hf) (by simpa [wt] using hw) hm' hwf
+      have ih := cast_lvE o t' v a _ _ _ nl (by simpa [fragE] using hf) (by simpa [wt] using hw) (by simpa [inScope] using hs) hm' hwf
       by_cases hn : lv t' v = .null
       · simp [toTarget, lv, norm, dvalOf, hn, Read.cast]
       · simp only [toTarget, lv, norm, hn, if_false, dvalOf]
         exact cast_option_nonnull _ a _ _ hn ih
     | _ => simp [wt] at hw
-  | t, .newtype v, a, dt, nb, md, nl, hf, hw, hm, hwf => by
+  | t, .newtype v, a, dt, nb, md, nl, hf, hw, hs, hm, hwf => by
     cases t with
     | prim p => cases p <;> simp [wt, Prim.wt] at hw
     | newtype n t' =>
       simp only [mappingDT] at hm
-      have ih := cast_lv o t' v a _ _ _ nl (by simpa [frag] using hf) (by simpa [wt] using hw) hm hwf
+      have ih := cast_lvE o t' v a _ _ _ nl (by simpa [fragE] using hf) (by simpa [wt] using hw) (by simpa [inScope] using hs) hm hwf
       simpa [toTarget, lv, norm, dvalOf, Read.cast] using ih
     | _ => simp [wt] at hw
-  | t, .vec vs, a, dt, nb, md, nl, hf, hw, hm, hwf => by
+  | t, .vec vs, a, dt, nb, md, nl, hf, hw, hs, hm, hwf => by
     cases t with
     | prim p => cases p <;> simp [wt, Prim.wt] at hw
     | vec t' =>
@@ -105,87 +106,174 @@ theorem cast_lv (o : TraceOpts) : ∀ (t : Ty) (v : Val) (a : Arr) (dt : DataTyp
           obtain ⟨v, offs, fm, el, rfl, _, h⟩ := wf_list hwf
           exact ⟨_, v, offs, fm, el, rfl, h⟩
       obtain ⟨lg, vv, offs, fm, el, rfl, hel⟩ := hel
-      have ih := cast_lvAll o t' vs el dt' nb' md' nb' (by simpa [frag] using hf) (by simpa [wt] using hw) hm' hel
+      have ih := cast_lvAllE o t' vs el dt' nb' md' nb' (by simpa [fragE] using hf) (by simpa [wt] using hw) (by simpa [inScope] using hs) hm' hel
       simp [toTarget, lv, norm, dvalOf, Read.cast, ih, Read.andThenL, DVals.ofList_toList]
     | _ => simp [wt] at hw
-  | t, .map es, a, dt, nb, md, nl, hf, hw, hm, hwf => by
+  | t, .map es, a, dt, nb, md, nl, hf, hw, hs, hm, hwf => by
     cases t with
     | prim p => cases p <;> simp [wt, Prim.wt] at hw
     | map k v =>
       rcases hk : mappingDT o k with ⟨kdt, knb, kmd⟩
       rcases hv : mappingDT o v with ⟨vdt, vnb, vmd⟩
       simp only [mappingDT, hk, hv, Prod.mk.injEq] at hm; obtain ⟨rfl, rfl, rfl⟩ := hm
-      simp only [frag, Bool.and_eq_true] at hf
+      simp only [fragE, Bool.and_eq_true] at hf
       obtain ⟨vv, offs, mm, ks, vs, rfl, _, _, hwk, hwv⟩ := wf_map hwf
-      have ih := cast_lvEntries o k v es ks vs kdt knb kmd vdt vnb vmd hf.1 hf.2 (by simpa [wt] using hw) hk hv hwk hwv
+      have ih := cast_lvEntriesE o k v es ks vs kdt knb kmd vdt vnb vmd hf.1 hf.2 (by simpa [wt] using hw) (by simpa [inScope] using hs) hk hv hwk hwv
       simp [toTarget, lv, norm, dvalOf, Read.cast, ih, Read.andThenE, DEntries.ofList_toList]
     | _ => simp [wt] at hw
-  | t, .tuple vs, a, dt, nb, md, nl, hf, hw, hm, hwf => by
+  | t, .tuple vs, a, dt, nb, md, nl, hf, hw, hs, hm, hwf => by
     cases t with
     | prim p => cases p <;> simp [wt, Prim.wt] at hw
-    | tuple ts => simp [frag] at hf
-    | tupleStruct n ts => simp [frag] at hf
+    | tuple ts =>
+      simp only [mappingDT, Prod.mk.injEq] at hm; obtain ⟨rfl, rfl, rfl⟩ := hm
+      obtain ⟨len, vv, cols, rfl, _, hcols⟩ := wf_struct hwf
+      have ih := cast_lvPosE o ts vs 0 cols len (by simpa [fragE] using hf) (by simpa [wt] using hw) (by simpa [inScope] using hs) hcols
+      simp [toTarget, lv, norm, dvalOf, Read.cast, Read.tupleClaim, ih, Read.andThenL, DVals.ofList_toList]
+    | tupleStruct n ts =>
+      simp only [mappingDT, Prod.mk.injEq] at hm; obtain ⟨rfl, rfl, rfl⟩ := hm
+      obtain ⟨len, vv, cols, rfl, _, hcols⟩ := wf_struct hwf
+      have ih := cast_lvPosE o ts vs 0 cols len (by simpa [fragE] using hf) (by simpa [wt] using hw) (by simpa [inScope] using hs) hcols
+      simp [toTarget, lv, norm, dvalOf, Read.cast, Read.tupleClaim, ih, Read.andThenL, DVals.ofList_toList]
     | _ => simp [wt] at hw
-  | t, .struct vs, a, dt, nb, md, nl, hf, hw, hm, hwf => by
+  | t, .struct vs, a, dt, nb, md, nl, hf, hw, hs, hm, hwf => by
     cases t with
     | prim p => cases p <;> simp [wt, Prim.wt] at hw
     | struct n fs =>
       simp only [mappingDT, Prod.mk.injEq] at hm; obtain ⟨rfl, rfl, rfl⟩ := hm
-      simp only [frag, Bool.and_eq_true, Bool.not_eq_true'] at hf
+      simp only [fragE, Bool.and_eq_true, Bool.not_eq_true'] at hf
       have hw' : wtFields fs vs = true := by simpa [wt] using hw
       obtain ⟨len, vv, cols, rfl, _, hcols⟩ := wf_struct hwf
       have hfound := foundA_of o len fs vs cols hcols hw' hf.1
-      have ih := cast_lvFields o cols (lvFields fs vs) fs vs hf.2 hw' hfound
+      have ih := cast_lvFieldsE o cols (lvFields fs vs) fs vs hf.2 hw' (by simpa [inScope] using hs) hfound
       have hn1 := wfFields_names o fs cols len hcols
       simp [toTarget, lv, norm, dvalOf, Read.cast, Read.structClaim, hn1, toTargetFields_names, nodupNames_eq, hf.1, ih,
         Read.andThenE, DEntries.ofList_toList]
     | _ => simp [wt] at hw
-  | t, .variant i p, a, dt, nb, md, nl, hf, hw, hm, hwf => by
+  | t, .variant i p, a, dt, nb, md, nl, hf, hw, hs, hm, hwf => by
     cases t with
     | prim p => cases p <;> simp [wt, Prim.wt] at hw
-    | enum n vars => simp [frag] at hf
+    | enum n vars =>
+      simp only [inScope, Bool.and_eq_true, Bool.not_eq_true'] at hs
+      obtain ⟨hform, hpay⟩ := hs
+      obtain ⟨rfl, rfl, rfl⟩ := enum_union o n vars dt nb md hform hm
+      simp only [fragE, Bool.and_eq_true, Bool.not_eq_true'] at hf
+      obtain ⟨types, offs, cols, rfl, hcols⟩ := wf_union hwf
+      cases hg : vars.get? i with
+      | none => simp [wt, hg] at hw
+      | some q =>
+        obtain ⟨vn, kind⟩ := q
+        have hfk := fragEVariants_get vars i vn kind hf.2 hg
+        obtain ⟨fm, child, hfind, hname, hchild⟩ := findId_variant o vars cols 0 i vn kind (by simpa using hcols) hg
+        simp only [Nat.zero_add] at hfind
+        have hcv := castVariant_get child
+        cases kind with
+        | unit =>
+          obtain ⟨len, rfl⟩ := wf_null (by simpa [variantField, Field.dataType, Field.nullable] using hchild)
+          simp [toTarget, lv, norm, dvalOf, hg, Read.cast, hfind, hname, hcv _ vars i vn .unit hf.1 hg, toTargetKind,
+            Read.castKind, Read.isNullArr, Read.LVal.isNull, Read.Claim.andThen, Read.must]
+        | newtype t' =>
+          have hw' : wtSingle t' p = true := by simpa [wt, hg] using hw
+          rcases hm' : mappingDT o t' with ⟨dt', nb', md'⟩
+          cases p with
+          | nil => simp [wtSingle] at hw'
+          | cons v rest =>
+            cases rest with
+            | cons _ _ => simp [wtSingle] at hw'
+            | nil =>
+              have ih := cast_lvE o t' v child dt' nb' md' nb' (by simpa [fragEVariant] using hfk)
+                (by simpa [wtSingle] using hw') (by simpa [hg, inScopeSingle] using hpay) hm'
+                (by simpa [variantField, Field.dataType, Field.nullable, hm'] using hchild)
+              simp [toTarget, lv, norm, dvalOf, hg, lvSingle, normSingle, dvalSingle, Read.cast, hfind, hname,
+                hcv _ vars i vn _ hf.1 hg, toTargetKind, Read.castKind, ih, Read.Claim.andThen, Read.must]
+        | tuple ts =>
+          have hw' : wtPos ts p = true := by simpa [wt, hg] using hw
+          obtain ⟨len, vv, ccols, rfl, _, hccols⟩ := wf_struct
+            (by simpa [variantField, Field.dataType, Field.nullable] using hchild : Spec.wf (.struct (mappingPos o 0 ts)) false child = true)
+          have ih := cast_lvPosE o ts p 0 ccols len (by simpa [fragEVariant] using hfk) hw' (by simpa [hg] using hpay) hccols
+          simp [toTarget, lv, norm, dvalOf, hg, Read.cast, hfind, hname, hcv _ vars i vn _ hf.1 hg, toTargetKind,
+            Read.castKind, Read.tupleClaim, ih, Read.andThenL, DVals.ofList_toList, Read.Claim.andThen, Read.must]
+        | struct fs =>
+          have hw' : wtFields fs p = true := by simpa [wt, hg] using hw
+          simp only [fragEVariant, Bool.and_eq_true, Bool.not_eq_true'] at hfk
+          obtain ⟨len, vv, ccols, rfl, _, hccols⟩ := wf_struct
+            (by simpa [variantField, Field.dataType, Field.nullable] using hchild : Spec.wf (.struct (mappingFields o fs)) false child = true)
+          have hfound := foundA_of o len fs p ccols hccols hw' hfk.1
+          have ih := cast_lvFieldsE o ccols (lvFields fs p) fs p hfk.2 hw' (by simpa [hg] using hpay) hfound
+          have hn1 := wfFields_names o fs ccols len hccols
+          simp [toTarget, lv, norm, dvalOf, hg, Read.cast, hfind, hname, hcv _ vars i vn _ hf.1 hg, toTargetKind,
+            Read.castKind, Read.structClaim, hn1, toTargetFields_names, nodupNames_eq, hfk.1, ih, Read.andThenE,
+            DEntries.ofList_toList, Read.Claim.andThen, Read.must]
     | _ => simp [wt] at hw
 
-theorem cast_lvAll (o : TraceOpts) : ∀ (t : Ty) (vs : Vals) (el : Arr) (dt : DataType) (nb : Bool) (md : Metadata) (nl : Bool),
-    frag t = true → wtAll t vs = true → mappingDT o t = (dt, nb, md) → Spec.wf dt nl el = true →
+theorem cast_lvAllE (o : TraceOpts) : ∀ (t : Ty) (vs : Vals) (el : Arr) (dt : DataType) (nb : Bool) (md : Metadata) (nl : Bool),
+    fragE t = true → wtAll t vs = true → inScopeAll o t vs = true → mappingDT o t = (dt, nb, md) → Spec.wf dt nl el = true →
     Read.claimVals (fun x => Read.cast (toTarget t) el x) (lvAll t vs) = .ok (some (dvalAll t (normAll t vs)).toList)
-  | t, .nil, el, dt, nb, md, nl, _, _, _, _ => by simp [lvAll, normAll, dvalAll, Read.claimVals, Read.DVals.toList]
-  | t, .cons v rest, el, dt, nb, md, nl, hf, hw, hm, hwf => by
+  | t, .nil, el, dt, nb, md, nl, _, _, _, _, _ => by simp [lvAll, normAll, dvalAll, Read.claimVals, Read.DVals.toList]
+  | t, .cons v rest, el, dt, nb, md, nl, hf, hw, hs, hm, hwf => by
     simp only [wtAll, Bool.and_eq_true] at hw
-    have h1 := cast_lv o t v el dt nb md nl hf hw.1 hm hwf
-    have h2 := cast_lvAll o t rest el dt nb md nl hf hw.2 hm hwf
+    simp only [inScopeAll, Bool.and_eq_true] at hs
+    have h1 := cast_lvE o t v el dt nb md nl hf hw.1 hs.1 hm hwf
+    have h2 := cast_lvAllE o t rest el dt nb md nl hf hw.2 hs.2 hm hwf
     simp [lvAll, normAll, dvalAll, Read.claimVals, Read.DVals.toList, h1, h2, Read.consClaim, Read.must]
 
-theorem cast_lvEntries (o : TraceOpts) : ∀ (k v : Ty) (es : VEntries) (ks vs : Arr)
+theorem cast_lvEntriesE (o : TraceOpts) : ∀ (k v : Ty) (es : VEntries) (ks vs : Arr)
     (kdt : DataType) (knb : Bool) (kmd : Metadata) (vdt : DataType) (vnb : Bool) (vmd : Metadata),
-    frag k = true → frag v = true → wtEntries k v es = true → mappingDT o k = (kdt, knb, kmd) → mappingDT o v = (vdt, vnb, vmd) →
+    fragE k = true → fragE v = true → wtEntries k v es = true → inScopeEntries o k v es = true →
+    mappingDT o k = (kdt, knb, kmd) → mappingDT o v = (vdt, vnb, vmd) →
     Spec.wf kdt knb ks = true → Spec.wf vdt vnb vs = true →
     Read.claimEntries (fun w => Read.cast (toTarget k) ks w) (fun w => Read.cast (toTarget v) vs w) (lvEntries k v es) =
       .ok (some (dvalEntries k v (normEntries k v es)).toList)
-  | k, v, .nil, _, _, _, _, _, _, _, _, _, _, _, _, _, _, _ => by
+  | k, v, .nil, _, _, _, _, _, _, _, _, _, _, _, _, _, _, _, _ => by
     simp [lvEntries, normEntries, dvalEntries, Read.claimEntries, Read.DEntries.toList]
-  | k, v, .cons a b rest, ks, vs, kdt, knb, kmd, vdt, vnb, vmd, hfk, hfv, hw, hk, hv, hwk, hwv => by
+  | k, v, .cons a b rest, ks, vs, kdt, knb, kmd, vdt, vnb, vmd, hfk, hfv, hw, hs, hk, hv, hwk, hwv => by
     simp only [wtEntries, Bool.and_eq_true] at hw
-    have h1 := cast_lv o k a ks kdt knb kmd knb hfk hw.1.1 hk hwk
-    have h2 := cast_lv o v b vs vdt vnb vmd vnb hfv hw.1.2 hv hwv
-    have h3 := cast_lvEntries o k v rest ks vs kdt knb kmd vdt vnb vmd hfk hfv hw.2 hk hv hwk hwv
+    simp only [inScopeEntries, Bool.and_eq_true] at hs
+    have h1 := cast_lvE o k a ks kdt knb kmd knb hfk hw.1.1 hs.1.1 hk hwk
+    have h2 := cast_lvE o v b vs vdt vnb vmd vnb hfv hw.1.2 hs.1.2 hv hwv
+    have h3 := cast_lvEntriesE o k v rest ks vs kdt knb kmd vdt vnb vmd hfk hfv hw.2 hs.2 hk hv hwk hwv
     simp [lvEntries, normEntries, dvalEntries, Read.claimEntries, Read.DEntries.toList, h1, h2, h3, Read.consClaim,
       Read.pairClaim, Read.must]
 
-theorem cast_lvFields (o : TraceOpts) (cols : ArrFields) (lfs : LFields) : ∀ (fs2 : TFields) (vs2 : Vals),
-    fragFields fs2 = true → wtFields fs2 vs2 = true → FoundA o cols lfs fs2 vs2 →
+theorem cast_lvFieldsE (o : TraceOpts) (cols : ArrFields) (lfs : LFields) : ∀ (fs2 : TFields) (vs2 : Vals),
+    fragEFields fs2 = true → wtFields fs2 vs2 = true → inScopeFields o fs2 vs2 = true → FoundA o cols lfs fs2 vs2 →
     Read.castFields (toTargetFields fs2) cols lfs = .ok (some (dvalFields fs2 (normFields fs2 vs2)).toList)
-  | .nil, .nil, _, _, _ => by simp [toTargetFields, Read.castFields, normFields, dvalFields, Read.DEntries.toList]
-  | .nil, .cons _ _, _, hw, _ => by simp [wtFields] at hw
-  | .cons _ _ _ _, .nil, _, hw, _ => by simp [wtFields] at hw
-  | .cons n s t rest, .cons v vrest, hf, hw, hfound => by
-    simp only [fragFields, Bool.and_eq_true] at hf
+  | .nil, .nil, _, _, _, _ => by simp [toTargetFields, Read.castFields, normFields, dvalFields, Read.DEntries.toList]
+  | .nil, .cons _ _, _, hw, _, _ => by simp [wtFields] at hw
+  | .cons _ _ _ _, .nil, _, hw, _, _ => by simp [wtFields] at hw
+  | .cons n s t rest, .cons v vrest, hf, hw, hs, hfound => by
+    simp only [fragEFields, Bool.and_eq_true] at hf
     simp only [wtFields, Bool.and_eq_true] at hw
+    simp only [inScopeFields, Bool.and_eq_true] at hs
     obtain ⟨⟨a, dt, nb, md, nl, h1, h2, h3⟩, hr⟩ := hfound
-    have hc := cast_lv o t v a dt nb md nl hf.1.1 hw.1 h2 h3
-    have ih := cast_lvFields o cols lfs rest vrest hf.2 hw.2 hr
+    have hc := cast_lvE o t v a dt nb md nl hf.1.1 hw.1 hs.1 h2 h3
+    have ih := cast_lvFieldsE o cols lfs rest vrest hf.2 hw.2 hs.2 hr
     simp [toTargetFields, Read.castFields, h1, hc, ih, normFields, dvalFields, Read.DEntries.toList, Read.consClaim,
       Read.must, nameKey]
+
+theorem cast_lvPosE (o : TraceOpts) : ∀ (ts : Tys) (vs : Vals) (i : Nat) (cols : ArrFields) (len : Nat),
+    fragETys ts = true → wtPos ts vs = true → inScopePos o ts vs = true → Spec.wfFields (mappingPos o i ts) cols len = true →
+    Read.castTuple (toTargets ts) cols (lvPos i ts vs) = .ok (some (dvalPos ts (normPos ts vs)).toList)
+  | .nil, .nil, _, _, _, _, _, _, _ => by simp [toTargets, Read.castTuple, normPos, dvalPos, Read.DVals.toList]
+  | .nil, .cons _ _, _, _, _, _, hw, _, _ => by simp [wtPos] at hw
+  | .cons _ _, .nil, _, _, _, _, hw, _, _ => by simp [wtPos] at hw
+  | .cons t rest, .cons v vrest, i, .nil, len, _, _, _, h => by
+    rcases hm : mappingDT o t with ⟨dt, nb, md⟩
+    simp [mappingPos, hm, Spec.wfFields] at h
+  | .cons t rest, .cons v vrest, i, .cons fm a arest, len, hf, hw, hs, h => by
+    rcases hm : mappingDT o t with ⟨dt, nb, md⟩
+    simp only [mappingPos, hm, Spec.wfFields, Bool.and_eq_true] at h
+    simp only [fragETys, Bool.and_eq_true] at hf
+    simp only [wtPos, Bool.and_eq_true] at hw
+    simp only [inScopePos, Bool.and_eq_true] at hs
+    have hc := cast_lvE o t v a dt nb md nb hf.1 hw.1 hs.1 hm (by simpa [Field.dataType, Field.nullable] using h.1.2)
+    have ih := cast_lvPosE o rest vrest (i + 1) arest len hf.2 hw.2 hs.2 h.2
+    simp [toTargets, lvPos, Read.castTuple, hc, ih, normPos, dvalPos, Read.DVals.toList, Read.consClaim, Read.must]
 end
+
+/-- `cast_lvE` on the enum-free fragment (no exclusion applies) -/
+theorem cast_lv (o : TraceOpts) (t : Ty) (v : Val) (a : Arr) (dt : DataType) (nb : Bool) (md : Metadata) (nl : Bool)
+    (hf : frag t = true) (hw : wt t v = true) (hm : mappingDT o t = (dt, nb, md)) (hwf : Spec.wf dt nl a = true) :
+    Read.cast (toTarget t) a (lv t v) = Read.must (dvalOf t (norm t v)) :=
+  cast_lvE o t v a dt nb md nl (frag_fragE t hf) hw (frag_inScope o t v hf) hm hwf
 
 end SaModel.Roundtrip
